@@ -244,7 +244,7 @@ func rulePending(c *Ctx) {
 			if st, ok := in.(*ssa.Store); ok {
 				if n, _, ok := fieldName(st.Addr); ok && n == "tickDelta" {
 					af := c.affine(fn, st.Val)
-					good = af.equal(map[string]int64{"w.tickDelta": 1, "t": 1}, 0)
+					good = af.equal(map[string]int64{"p0.tickDelta": 1, "p1": 1}, 0)
 				}
 			}
 		})
@@ -384,7 +384,7 @@ func ruleTrackAdd(c *Ctx) {
 		switch {
 		case n == "TickDelta" && base == ssa.Value(ta.Params[1]):
 			af := c.affine(ta, st.Val)
-			folded = af.equal(map[string]int64{"op.TickDelta": 1, "t.tickDelta": 1}, 0)
+			folded = af.equal(map[string]int64{"p1.TickDelta": 1, "p0.tickDelta": 1}, 0)
 		case n == "tickDelta":
 			k, ok := constInt(st.Val)
 			cleared = ok && k == 0
@@ -402,7 +402,7 @@ func ruleTrackAdd(c *Ctx) {
 		allInstrs(fn, func(in ssa.Instruction) {
 			if st, ok := in.(*ssa.Store); ok {
 				if n, _, ok := fieldName(st.Addr); ok && n == "tickDelta" {
-					good = c.affine(fn, st.Val).equal(map[string]int64{"t.tickDelta": 1, "tickDelta": 1}, 0)
+					good = c.affine(fn, st.Val).equal(map[string]int64{"p0.tickDelta": 1, "p1": 1}, 0)
 				}
 			}
 		})
